@@ -101,8 +101,23 @@ JudgeVrfMsgPair(e) ==
   Tag(e.secondProofSameLater /\ e.firstProofSameLater, "Inv.Deterministic:msgpair/" \o e.rel) \o
   Tag(e.proofsEqual = same, "Inv.ProofBindsMessage:" \o e.rel)
 
+(* an encoding longer than a proof (proof followed by bytes): whether it is accepted at all is an
+   observation; single-bit flips of its tail are judged with the other mutations (part "trailingByte") *)
+JudgeOverlong(e) == Tag(~e.accepted /\ ~e.acceptedThroughHeader, "Ext.ProofHasOneLength:extra" \o ToString(e.extra))
+
+(* another encoding of the same proof: observation; its lottery output must be the same (verdict) *)
+JudgeAltEncoding(e) ==
+  Tag(~e.accepted, "Ext.ProofHasOneEncoding:" \o e.kind) \o
+  Tag(e.accepted => e.sameOutput, "Inv.UniqueLotteryOutput:" \o e.kind)
+
+(* qualification is defined for every stake / working-miner / height combination *)
+JudgeTotal(e) == Tag(~e.panicked, "Inv.QualificationIsTotal:" \o (IF e.active THEN "workingMinersAboveStakeAfterActivation" ELSE "workingMinersAboveStake"))
+
 Judge(e) ==
   CASE e.event = "VrfCase"       -> <<>>
+    [] e.event = "Overlong"      -> JudgeOverlong(e)
+    [] e.event = "AltEncoding"   -> JudgeAltEncoding(e)
+    [] e.event = "Total"         -> JudgeTotal(e)
     [] e.event = "VrfMsgPair"    -> JudgeVrfMsgPair(e)
     [] e.event = "Retain"        -> JudgeRetain(e)
     [] e.event = "Concurrent"    -> JudgeConcurrent(e)
